@@ -261,3 +261,45 @@ def tie(ctx):
         "divergences": divergences[:20],
         "violations": violations[:8],
     }
+
+
+def replay(ctx, hdr, body):
+    """re-run a recorded 2.x snapshot case on the library built from the working tree and on the model, and
+    judge it again: write outcome and snapshot() against Spec.normalize of the written snapshot, then the
+    second write (fixed point) if the script has one"""
+    import re
+    lines = [l for l in body if not re.match(r"^[A-Za-z_()0-9 ]{1,20}: ", l)]
+    if len(lines) < 3 or not lines[0].startswith("create schema_2_"):
+        return None
+    writes = [i for i, l in enumerate(lines) if l.startswith("mktrack t0 ") or l.startswith("update t0 ")]
+    if not writes:
+        return None
+    (_, ho, mo) = G.run_pair(runner, [lines])[0]
+    diffs = [(l, h, m) for l, h, m in zip(lines, ho, mo) if not G.same(h, m)]
+    verdict = []
+    schema = lines[0].split()[1]
+    # the case's own write is the last write before the first `snap t0`
+    first_snap = next((i for i, l in enumerate(lines) if l == "snap t0"), None)
+    w = max([i for i in writes if first_snap is None or i < first_snap], default=writes[0])
+    x = lines[w].split(" ", 2)[2]
+    spec = runner.run_model_script(["t2.spec.norm %s %s" % (schema, x)])[0]
+    collide = any(l.startswith("mktrack t1 ") for l in lines[:w])
+    if ho[w].startswith("ub "):
+        verdict.append("the write has undefined behaviour (%s)" % ho[w])
+    elif spec == "reject" or collide:
+        if not ho[w].startswith("throw "):
+            verdict.append("a snapshot the library must reject was accepted (%s)" % ho[w])
+    elif not ho[w].startswith("ok"):
+        verdict.append("a snapshot the library must accept was rejected (%s)" % ho[w])
+    elif first_snap is not None and ho[first_snap] != spec:
+        verdict.append("read-back snapshot differs from the normalised input")
+    snaps = [i for i, l in enumerate(lines) if l == "snap t0"]
+    if len(snaps) >= 2 and ho[snaps[0]].startswith("ok ") and not verdict:
+        if not ho[snaps[1] - 1].startswith("ok") and not lines[snaps[1] - 1].startswith("t2."):
+            verdict.append("writing the read-back snapshot again was not accepted (%s)" % ho[snaps[1] - 1])
+        elif ho[snaps[1]] != ho[snaps[0]]:
+            verdict.append("the read-back snapshot is not a fixed point of write/read")
+    txt = "\n".join("%s\n   impl:  %s\n   model: %s%s" % (l[:200], h[:400], m[:400], "" if G.same(h, m) else "   <-- differ")
+                    for l, h, m in zip(lines, ho, mo))
+    txt += "\nspec: " + spec[:400] + "\n" + "\n".join("ORACLE: " + v for v in verdict)
+    return (not diffs and not verdict), txt
